@@ -37,7 +37,9 @@ type C18Case struct {
 	Prefix  []byte `json:"prefix"`
 	Prefix2 []byte `json:"prefix2"`
 	Level   bool   `json:"level"`
-	Ops     []KOp  `json:"ops"`
+	// Spare: spare capacity of the prefix slices handed to NewPrefixDB (a caller may well pass a slice built by append)
+	Spare int   `json:"spare,omitempty"`
+	Ops   []KOp `json:"ops"`
 }
 
 func genBKey(t *rapid.T, min int, label string) []byte {
@@ -53,6 +55,7 @@ func genC18(t *rapid.T) C18Case {
 		c.Prefix = rapid.SliceOfN(rapid.SampledFrom(kvAlpha), 1, 3).Draw(t, "prefixr")
 	}
 	c.Prefix2 = rapid.SampledFrom(prefixes).Draw(t, "prefix2")
+	c.Spare = rapid.SampledFrom([]int{0, 0, 1, 9, 16}).Draw(t, "spare")
 	n := rapid.IntRange(1, 30).Draw(t, "steps")
 	var present [][]byte
 	bound := func(label string) ([]byte, bool) {
@@ -191,7 +194,7 @@ func runC18(c C18Case) (v *Violation, st map[string]bool) {
 	bes = append(bes, &kvBackend{name: "mem", db: dbm.NewMemDB()})
 	addPrefixed := func(name string, parent corestore.KVStoreWithBatch) {
 		seedOutside(parent, c.Prefix)
-		bes = append(bes, &kvBackend{name: name, db: dbm.NewPrefixDB(parent, c.Prefix), parent: parent, full: c.Prefix})
+		bes = append(bes, &kvBackend{name: name, db: dbm.NewPrefixDB(parent, withSpare(c.Prefix, c.Spare)), parent: parent, full: c.Prefix})
 	}
 	addPrefixed("prefix(mem)", dbm.NewMemDB())
 	// nested: PrefixDB(PrefixDB(mem, p1), p2)
@@ -206,7 +209,7 @@ func runC18(c C18Case) (v *Violation, st map[string]bool) {
 				_ = parent.Delete(e.K)
 			}
 		}
-		bes = append(bes, &kvBackend{name: "prefix(prefix(mem))", db: dbm.NewPrefixDB(dbm.NewPrefixDB(parent, c.Prefix), c.Prefix2), parent: parent, full: full})
+		bes = append(bes, &kvBackend{name: "prefix(prefix(mem))", db: dbm.NewPrefixDB(dbm.NewPrefixDB(parent, withSpare(c.Prefix, c.Spare)), withSpare(c.Prefix2, c.Spare)), parent: parent, full: full})
 	}
 	if c.Level {
 		base := os.Getenv("VERIF_TMP")
